@@ -98,3 +98,8 @@ Example written_modes_nonvacuous :
   split_lines (lines_bytes MLF ls) = [mkLine (bs "a") LF; mkLine (bs "b") LF; mkLine (bs "c") NoNL] /\
   split_lines (lines_bytes MCRLF ls) = [mkLine (bs "a") CRLF; mkLine (bs "b") CRLF; mkLine (bs "c") NoNL].
 Proof. split; reflexivity. Qed.
+
+(* every file read meets the content hypothesis of split_lines_of_written (with split_lines_wf: both hypotheses) *)
+Theorem split_lines_nocr : forall s, Forall nocr (split_lines s).
+Proof. exact Proofs_LinesBack.split_lines_nocr. Qed.
+Print Assumptions split_lines_nocr.
